@@ -1,7 +1,7 @@
 """C04 — see DESIGN.md §5; shared wrapping engine (runner/wrapeng.py, spec/Wrap.tla, spec/WrapV.tla).
 
 Additionally (flow M, diagnostic): the implementation model spec/WrapImpl.tla (PlusCal transcription of
-LineWrapper's state machine) is model-checked against the same predicates, and its two "repair switches"
+LineWrapper's state machine) is model-checked against the same predicates, and its three "repair switches"
 are turned off in turn: TLC must then find the historical counterexamples (if it does not, the model or
 the predicates have become vacuous and the check is undecided, never a violation)."""
 import re
@@ -20,8 +20,11 @@ def model(c):
     r = c.tlc_ok("WrapImpl", cfg=cfg, workers=NCPU, timeout=3000, heap="8g")
     c.extra["implementation_model"] = {"cfg": cfg, "distinct_states": r.distinct, "generated": r.generated,
                                        "invariants": ["InvSteps", "InvContig", "InvCover", "InvTruncCount", "InvMandatory", "InvNonEmpty", "InvLegalEnd", "InvFits", "InvGreedy"]}
+    # the same model under letter spacing (leading half): lines start trimmed
+    r2 = c.tlc_ok("WrapImpl", cfg="WrapImplLS.cfg", workers=NCPU, timeout=3000, heap="8g")
+    c.extra["implementation_model"]["letter_spacing_distinct_states"] = r2.distinct
     sens = {}
-    for name, want in (("WrapImplNoInv.cfg", "InvFits"), ("WrapImplNoTrunc.cfg", "InvLegalEnd")):
+    for name, want in (("WrapImplNoInv.cfg", "InvFits"), ("WrapImplNoTrunc.cfg", "InvLegalEnd"), ("WrapImplNoFirstRun.cfg", "InvGreedy")):
         rr = c.tlc("WrapImpl", cfg=name, workers=NCPU, timeout=1800, heap="8g")
         m = re.search(r"Invariant (\w+) is violated", rr.out)
         if not m:
